@@ -280,22 +280,22 @@ example : s3X.store.lookup kX = some ⟨0#64, 11, Gen.zeroTime⟩ ∧
 still in the buffer and `kX` is not resident; at the end it is. -/
 example : (run cfgX s1X (acts1.take 8)).map (fun s => (s.buf.length, s.store.lookup kX)) = some (2, none) := by rfl
 
+theorem sw_ok : (run cfgX s1X (acts1.take 7)).isSome = true := by rfl
+/-- the state in which client 1 is about to send its marker -/
+def swX : State := (run cfgX s1X (acts1.take 7)).get sw_ok
+
 /-- Non-vacuity of `wait_applies_all`: in the same run, when client 1's `waitRet` is logged the
 applier has removed from the front of the pending sequence the item that was pending when the
 marker was enqueued, and the marker. -/
-example : ∃ (sw s2 : State) (acts : List Action) (new : List Ev),
-    Reach cfgX sw ∧ sw.cl 1 = .waitSend ∧ run cfgX (stWaitSend cfgX sw 1) acts = some s2 ∧
-    s2.log = new ++ (stWaitSend cfgX sw 1).log ∧ Ev.waitRet 1 ∈ new ∧ pendE sw ≠ [] ∧
-    (pendE sw ++ [.marker sw.nextMarker]) <+: popped cfgX (stWaitSend cfgX sw 1) acts := by
-  have hpre : (run cfgX s1X (acts1.take 7)).isSome = true := by rfl
-  let sw := (run cfgX s1X (acts1.take 7)).get hpre
-  have hrun : run cfgX s1X (acts1.take 7) = some sw := by simp [sw]
-  have hreach : Reach cfgX sw := reach_s1X.run hrun
-  have hpc : sw.cl 1 = .waitSend := by rfl
-  have hrest : run cfgX (stWaitSend cfgX sw 1) (acts1.drop 8) = some s2X := by rfl
-  have hlog : s2X.log = [.waitRet 1] ++ (stWaitSend cfgX sw 1).log := by rfl
-  exact ⟨sw, s2X, acts1.drop 8, [.waitRet 1], hreach, hpc, hrest, hlog, by simp, by decide,
-    (wait_applies_all hreach hpc hrest hlog (by simp)).2⟩
+example : Reach cfgX swX ∧ swX.cl 1 = .waitSend ∧ run cfgX (stWaitSend cfgX swX 1) (acts1.drop 8) = some s2X ∧
+    (pendE swX).length = 1 ∧
+    (pendE swX ++ [.marker swX.nextMarker]) <+: popped cfgX (stWaitSend cfgX swX 1) (acts1.drop 8) := by
+  have hrun : run cfgX s1X (acts1.take 7) = some swX := by simp [swX]
+  have hreach : Reach cfgX swX := reach_s1X.run hrun
+  have hpc : swX.cl 1 = .waitSend := by rfl
+  have hrest : run cfgX (stWaitSend cfgX swX 1) (acts1.drop 8) = some s2X := by rfl
+  have hlog : s2X.log = [.waitRet 1] ++ (stWaitSend cfgX swX 1).log := by rfl
+  exact ⟨hreach, hpc, hrest, by rfl, (wait_applies_all hreach hpc hrest hlog (by simp)).2⟩
 
 /-- Non-vacuity of `overwrite_immediate`: in `s2X` (`kX ↦ 11`) a `Set kX 12` by client 1 reaches its
 store step; right after it any client's read sees 12, although nothing has been buffered yet. -/
@@ -307,56 +307,36 @@ example :
   refine ⟨(overwrite_immediate cfgX s 1 ⟨.new, kX, 0#64, 12, 1, Gen.zeroTime⟩ ⟨0#64, 11, Gen.zeroTime⟩
     (by rfl) (by rfl) (by rfl)).1, by rfl⟩
 
+def actsR : List Action := C05.preA ++
+  [.applier .selItem, .applier .none, .applier (.add [] true), .applier .none,
+   .applier .selItem, .applier .none, .applier (.add [] false), .applier .none,
+   .spawn 1 .wait, .client 1 .none, .client 1 .none, .applier .selItem, .applier .none,
+   .client 1 .none, .client 1 .none]
+theorem actsR_ok : (run cfgX (init cfgX 0) actsR).isSome = true := by rfl
+def sRX : State := (run cfgX (init cfgX 0) actsR).get actsR_ok
+
 /-- The side condition "not already pending" is necessary: `Set kX 11; Set kX 12` with both items
 still buffered when the applier runs — the second new-item is *rejected* (`policy.Add` answers
-"update"), and after `Wait` the cache holds 11, not 12.  (Run `C05.preA` + applier + `Wait`.) -/
+"update", `processItems` calls `onReject`), and after `Wait` the cache holds 11, not 12. -/
 theorem second_new_rejected :
-    ∃ s, run cfgX (init cfgX 0) (C05.preA ++
-      [.applier .selItem, .applier .none, .applier (.add [] true), .applier .none,
-       .applier .selItem, .applier .none, .applier (.add [] false), .applier .none,
-       .spawn 1 .wait, .client 1 .none, .client 1 .none, .applier .selItem, .applier .none,
-       .client 1 .none, .client 1 .none]) = some s ∧
-    (s.store.lookup kX).map (·.value) = some 11 ∧ Ev.reject kX 0#64 12 1 ∈ s.log ∧
-    s.log.head? = some (.waitRet 1) := by
-  have hok : (run cfgX (init cfgX 0) (C05.preA ++
-      [.applier .selItem, .applier .none, .applier (.add [] true), .applier .none,
-       .applier .selItem, .applier .none, .applier (.add [] false), .applier .none,
-       .spawn 1 .wait, .client 1 .none, .client 1 .none, .applier .selItem, .applier .none,
-       .client 1 .none, .client 1 .none])).isSome = true := by rfl
-  exact ⟨_, (Option.some_get hok).symm, by rfl, by decide, by rfl⟩
+    run cfgX (init cfgX 0) actsR = some sRX ∧
+    (sRX.store.lookup kX).map (·.value) = some 11 ∧
+    sRX.log.take 4 = [.waitRet 1, .waitCall 1, .exit 12, .reject kX 0#64 12 1] :=
+  ⟨by simp [sRX], by rfl, by rfl⟩
+
+theorem st_ok : (run cfgX (init cfgX 0) (C05.preA ++ C05.restA.take 16)).isSome = true := by rfl
+/-- the applier is about to run the tombstone's store delete -/
+def stX : State := (run cfgX (init cfgX 0) (C05.preA ++ C05.restA.take 16)).get st_ok
+theorem st_step_ok : (step cfgX stX (.applier .none)).isSome = true := by rfl
 
 /-- Non-vacuity of `stays_until`: the tombstone step of the run `C05.preA ++ C05.restA` erases the
-entry, and the cause reported is `tomb`. -/
-example : ∃ (s s' : State) (e : Entry), Reach cfgX s ∧ step cfgX s (.applier .none) = some s' ∧
-    s.store.lookup kX = some e ∧ s'.store.lookup kX ≠ some e ∧ ∃ i, s.app = .tombPolicy i := by
-  have hpre : (run cfgX (init cfgX 0) (C05.preA ++ C05.restA.take 16)).isSome = true := by rfl
-  let s := (run cfgX (init cfgX 0) (C05.preA ++ C05.restA.take 16)).get hpre
-  have hrun : run cfgX (init cfgX 0) (C05.preA ++ C05.restA.take 16) = some s := by simp [s]
-  have hst : (step cfgX s (.applier .none)).isSome = true := by rfl
-  refine ⟨s, (step cfgX s (.applier .none)).get hst, ⟨0#64, 11, Gen.zeroTime⟩, reach_of_run_f hrun, by simp, by rfl, ?_, ?_⟩
-  · have : ((step cfgX s (.applier .none)).get hst).store.lookup kX = none := by rfl
-    rw [this]; simp
-  · have h1 : s.store.lookup kX = some ⟨0#64, 11, Gen.zeroTime⟩ := by rfl
-    have h2 : ((step cfgX s (.applier .none)).get hst).store.lookup kX ≠ some ⟨0#64, 11, Gen.zeroTime⟩ := by
-      have : ((step cfgX s (.applier .none)).get hst).store.lookup kX = none := by rfl
-      rw [this]; simp
-    cases stays_until (reach_of_run_f hrun) (Option.some_get hst).symm h1 h2 with
-    | tomb i _ hpc _ _ => exact ⟨i, hpc⟩
-    | overwrite t i ha _ _ _ => cases ha
-    | del t c ha _ _ => cases ha
-    | readmit i vs _ hpc _ _ => have : s.app = .tombPolicy ⟨.del, kX, 0#64, 0, 0, Gen.zeroTime⟩ := by rfl
-                                rw [this] at hpc; cases hpc
-    | evicted cost rest _ hpc _ => have : s.app = .tombPolicy ⟨.del, kX, 0#64, 0, 0, Gen.zeroTime⟩ := by rfl
-                                   rw [this] at hpc; cases hpc
-    | cleared t closing j hpc _ =>
-      exfalso
-      have : ∀ t, s.cl t = .idle := by
-        intro t
-        by_cases h : t = 1
-        · subst h; rfl
-        · exact idle_of_other hrun t (fun hm => h ((by decide : ∀ x ∈ tidsOf (C05.preA ++ C05.restA.take 16), x = 1) t hm))
-      rw [this t] at hpc; cases hpc
-    | expired now c bs _ hpc _ _ _ _ => have : s.app = .tombPolicy ⟨.del, kX, 0#64, 0, 0, Gen.zeroTime⟩ := by rfl
-                                        rw [this] at hpc; cases hpc
+entry `kX ↦ 11`; `stays_until` applies and names a cause. -/
+example : EraseCause cfgX stX (.applier .none) ((step cfgX stX (.applier .none)).get st_step_ok) kX
+    ⟨0#64, 11, Gen.zeroTime⟩ :=
+  stays_until (reach_of_run_f (show run cfgX (init cfgX 0) (C05.preA ++ C05.restA.take 16) = some stX by simp [stX]))
+    (Option.some_get st_step_ok).symm (by rfl)
+    (by
+      have : ((step cfgX stX (.applier .none)).get st_step_ok).store.lookup kX = none := by rfl
+      rw [this]; simp)
 
 end RV.C06
